@@ -71,12 +71,48 @@ func (g *c02Gen) GenerateRequests(ctx context.Context, r *scan.Range) (<-chan *s
 	return out, nil
 }
 
+var c02Pool = []string{
+	"10.0.0.0/8", "10.0.0.0/16", "10.0.0.0/24", "10.0.0.0/30", "10.0.0.5", "10.0.0.4/31", "10.0.0.0",
+	"10.0.1.0/24", "10.128.0.0/9", "0.0.0.0/0", "11.0.0.0/8", "255.255.255.255",
+	"  10.0.0.0/24  # lab", "# 10.0.0.0/8", "",
+}
+
+// c02Text is the exclusion file of this run: corpus file FILE, or (FILE = -1) NL lines each
+// chosen by the solver from c02Pool - every order, repetition and nesting of those entries.
+func c02Text() string {
+	f := verifParam("FILE", 0)
+	if f >= 0 {
+		return c02Corpus[f]
+	}
+	if f == -2 {
+		// two entries and one comment line of LONG bytes at a solver-chosen position
+		lines := []string{"10.0.0.0/24", "11.0.0.0/8"}
+		long := "#" + strings.Repeat("x", verifParam("LONG", 65536))
+		pos := ndU8("longLineAt")
+		verifAssume(pos <= 2)
+		k := int(verifConcretize(uint64(pos)))
+		lines = append(lines[:k], append([]string{long}, lines[k:]...)...)
+		return strings.Join(lines, "\n") + "\n"
+	}
+	text := ""
+	for i := 0; i < verifParam("NL", 2); i++ {
+		k := ndU8("line")
+		verifAssume(int(k) < len(c02Pool))
+		text += c02Pool[verifConcretize(uint64(k))] + "\n"
+	}
+	return text
+}
+
 // VerifH_C02_exclude: the real parseExcludeFile + cidranger trie + exclusion filter on corpus
 // file FILE: for every IPv4 address (4- or 16-byte spelling) the request is dropped iff some
 // line of the file covers the address.
 func VerifH_C02_exclude() {
-	text := c02Corpus[verifParam("FILE", 0)]
+	text := c02Text()
 	ex, err := parseExcludeFile(func() (io.ReadCloser, error) { return io.NopCloser(strings.NewReader(text)), nil })
+	if err != nil && verifParam("FILE", 0) == -2 {
+		verifCover("rejected") // refusing an over-long line is within the property; truncating the list silently is not
+		return
+	}
 	verifAssert(err == nil && ex != nil, "well-formed exclusion file refused")
 	if err != nil {
 		return
